@@ -201,7 +201,7 @@ def map_failures(unit: Unit, out: Out, vr: VerusResult, text: str) -> List[Failu
     return fails
 
 
-def run_unit(unit: Unit, repo: str = REPO, probe: bool = True, tag: str = '') -> UnitRun:
+def run_unit(unit: Unit, repo: str = REPO, probe: bool = True, tag: str = '', _depth: int = 0) -> UnitRun:
     t0 = time.time()
     ur = UnitRun(unit.name, 'inconclusive')
     try:
@@ -229,7 +229,29 @@ def run_unit(unit: Unit, repo: str = REPO, probe: bool = True, tag: str = '') ->
     vr = run_verus(path, rlimit=unit.rlimit)
     ur.vr = vr
     ur.obligations = obligations_of(out)
+    fe = getattr(unit, 'front_end_obligations', None)
+    if fe:
+        ur.obligations += list(fe(out))
     if vr.json is None or vr.other_errors():
+        # L3 shape / signature contracts: a type error located in such a chunk IS the decision
+        if hasattr(unit, 'front_end_failures'):
+            ffs = unit.front_end_failures(out, vr, text)
+            if ffs and hasattr(unit, 'exclude') and _depth < 4:
+                # the remaining obligations of this file are still undecided: drop the disagreeing
+                # contract chunks and verify the rest
+                unit.exclude |= {f.obligation for f in ffs}
+                rest = run_unit(unit, repo, probe=probe, tag=tag + '_r', _depth=_depth + 1)
+                rest.failures = ffs + [f for f in rest.failures]
+                rest.obligations = sorted(set(rest.obligations) | {f.obligation for f in ffs})
+                if rest.status == 'ok':
+                    rest.status = 'failed'
+                rest.wall_s = time.time() - t0
+                return rest
+            if ffs:
+                ur.failures = ffs
+                ur.status = 'failed'
+                ur.wall_s = time.time() - t0
+                return ur
         msgs = [d.message for d in vr.other_errors()][:4] or [vr.stderr[-400:]]
         ur.reason = 'Verus could not process the extracted text (type error / unsupported construct): ' + ' | '.join(msgs)
         ur.wall_s = time.time() - t0
@@ -243,7 +265,7 @@ def run_unit(unit: Unit, repo: str = REPO, probe: bool = True, tag: str = '') ->
         ur.reason = 'Verus reported errors that could not be mapped: ' + vr.stderr[-400:]
         ur.wall_s = time.time() - t0
         return ur
-    if vr.verified + vr.errors == 0:
+    if vr.verified + vr.errors == 0 and not fe:
         ur.reason = 'vacuous: Verus verified zero functions'
         ur.wall_s = time.time() - t0
         return ur
@@ -277,8 +299,9 @@ def run_unit(unit: Unit, repo: str = REPO, probe: bool = True, tag: str = '') ->
                     break
                 got = set()
                 for fl in map_failures(unit, pout, pvr, ptext):
-                    if fl.obligation.endswith('#probe'):
-                        got.add(fl.obligation.split('#')[0])
+                    # any reported failure shows the function's obligations are not vacuously true
+                    # (with --multiple-errors 1 only the first failing clause of a function is reported)
+                    got.add(fl.obligation.split('#')[0])
                 got_all |= (got & want)
                 rest = want - got
                 if not rest or rest == want or passes > 6:
